@@ -7,6 +7,7 @@ bytes to a big integer little-endian, etc. — what the model assumes about them
 A reviewer's list of edits that an earlier, looser extraction did not see is kept as tools/translator_selftest.py.
 -/
 import WowSrp.Gen.Constants
+import WowSrp.Gen.Facts
 namespace WowSrp
 
 def expected_glueTbc : List (List String) := [["fnencrypt(&mutself,data:&mut[u8]) {encrypt(data,self.key,&mutself.index,&mutself.previous_value);}", "fnwrite_encrypted_server_header<W:Write>(&mutself,mutwrite:W,size:u16,opcode:u16,)->std::io::Result<()> {letbuf=self.encrypt_server_header(size,opcode);write.write_all(&buf)?;Ok(())}", "fnwrite_encrypted_client_header<W:Write>(&mutself,mutwrite:W,size:u16,opcode:u32,)->std::io::Result<()> {letbuf=self.encrypt_client_header(size,opcode);write.write_all(&buf)?;Ok(())}", "fndecrypt(&mutself,data:&mut[u8]) {decrypt(data,&self.key,&mutself.index,&mutself.previous_value);}", "fnread_and_decrypt_server_header<R:Read>(&mutself,mutreader:R,)->std::io::Result<ServerHeader> {letmutbuf=[0_u8;SERVER_HEADER_LENGTHasusize];reader.read_exact(&mutbuf)?;Ok(self.decrypt_server_header(buf))}", "fnread_and_decrypt_client_header<R:Read>(&mutself,mutreader:R,)->std::io::Result<ClientHeader> {letmutbuf=[0_u8;CLIENT_HEADER_LENGTHasusize];reader.read_exact(&mutbuf)?;Ok(self.decrypt_client_header(buf))}"]]
